@@ -29,7 +29,7 @@ import conc
 import driver
 
 PROPERTIES_FILE = "Properties/Properties_C06_slane.v"
-COQ_DEPS = ["Proofs/SLaneS_progress.vo", "Model/SLaneSR.vo"]
+COQ_DEPS = ["Proofs/SLaneS_progress.vo", "Proofs/SLaneS_realtime.vo", "Model/SLaneSR.vo"]
 GEN_MODULES = ["Gen_dqstate"]
 LEVEL = "proof"
 TRUSTED = [
